@@ -39,6 +39,25 @@ class CallGraph:
             for pn in ci.props:
                 self.is_prop.add('%s.%s' % (cname, pn))
 
+    def arity_ok(self, q, npos, kwnames, method=False):
+        """can a call with npos positional arguments and these keywords reach q at all?"""
+        a = self.funcs[q].args
+        params = [p.arg for p in a.posonlyargs + a.args]
+        if method and params and '.' in q:
+            params = params[1:]
+        if any(isinstance(k, str) and k not in params and k not in [p.arg for p in a.kwonlyargs] and not a.kwarg
+               for k in kwnames):
+            return False
+        if None in kwnames:
+            return True
+        if npos > len(params) and not a.vararg:
+            return False
+        required = len(params) - len(a.defaults)
+        given = npos + len([k for k in kwnames if k in params])
+        if given < required and not any(k is None for k in kwnames):
+            return False
+        return True
+
     def callees(self, qual):
         node = self.funcs[qual]
         out = set()
@@ -50,7 +69,8 @@ class CallGraph:
                     # x.name(...) reaches methods called `name` (no property of this code base
                     # returns a callable, so a property is never the target of a call)
                     for q in self.by_name.get(f.attr, []):
-                        if not q.endswith('.setter') and q not in self.is_prop:
+                        if not q.endswith('.setter') and q not in self.is_prop and \
+                                self.arity_ok(q, len(n.args), [k.arg for k in n.keywords], method=True):
                             out.add(q)
                 elif isinstance(f, ast.Name):
                     if f.id in self.repo.functions:
@@ -276,4 +296,55 @@ def set_iterations(fnode):
                 bad = True
             if bad:
                 out.append((n.lineno, ast.unparse(it)))
+    return out
+
+
+def rooted_reads(fnode, root_attr):
+    """attribute names read on values rooted at `<x>.<root_attr>` (e.g. self.media):
+    directly (self.media[0].coord), through a local alias (m = self.media[0]; m.coord) or a
+    loop / comprehension variable over it (for m in self.media: m.height).
+    Returns {attr: [lineno]}; uses of the root itself (truthiness, is None, len) are not reads
+    of its attributes."""
+    aliases = set()
+
+    def is_rooted(e):
+        for x in ast.walk(e):
+            if isinstance(x, ast.Attribute) and x.attr == root_attr:
+                return True
+            if isinstance(x, ast.Name) and x.id in aliases:
+                return True
+        return False
+    changed = True
+    while changed:
+        changed = False
+        for n in ast.walk(fnode):
+            tgt = None
+            if isinstance(n, ast.Assign) and len(n.targets) == 1 and is_rooted(n.value):
+                # only element/alias bindings, not values computed from it by a call of something else
+                v = n.value
+                if isinstance(v, (ast.Subscript, ast.Attribute, ast.Name)):
+                    tgt = n.targets[0]
+            elif isinstance(n, (ast.For, ast.comprehension)) and is_rooted(n.iter):
+                it = n.iter
+                if isinstance(it, ast.Call) and isinstance(it.func, ast.Name) and it.func.id == 'enumerate':
+                    tgt = n.target.elts[1] if isinstance(n.target, ast.Tuple) and len(n.target.elts) == 2 else None
+                elif isinstance(it, (ast.Attribute, ast.Name, ast.Subscript, ast.BoolOp)):
+                    tgt = n.target
+            if tgt is not None:
+                for t in ast.walk(tgt):
+                    if isinstance(t, ast.Name) and t.id not in aliases:
+                        aliases.add(t.id)
+                        changed = True
+    out = {}
+    for n in ast.walk(fnode):
+        if isinstance(n, ast.Attribute) and isinstance(n.ctx, ast.Load):
+            base = n.value
+            rooted = False
+            if isinstance(base, ast.Name) and base.id in aliases:
+                rooted = True
+            elif isinstance(base, ast.Subscript) and is_rooted(base.value) and \
+                    isinstance(base.value, (ast.Attribute, ast.Name)):
+                rooted = True
+            if rooted and n.attr != root_attr:
+                out.setdefault(n.attr, []).append(n.lineno)
     return out
